@@ -470,7 +470,11 @@ func (x *Exec) fallback(opts SolveOpts, safe string, idx int, o *Obligation, r *
 		}
 		f := filepath.Join(opts.Dir, fmt.Sprintf("%s.%d.%s.smt2", safe, idx, kind))
 		if _, ok := files[kind]; !ok {
+			if o.RetNil != nil && kind == "z3" {
+				x.evalTerms = []*Term{o.RetNil}
+			}
 			os.WriteFile(f, []byte(x.standaloneScript(o, kind, true)), 0o644)
+			x.evalTerms = nil
 			files[kind] = f
 		}
 	}
